@@ -18,6 +18,7 @@ Does NOT decide descriptor counts, kernel-level release or "other peers unaffect
 from ..sym import show, walk_expr
 from ..common import short, trait_impls, coroutine_of, strip_view
 from .. import pathq
+from . import names
 from ..report import Report
 from . import fq, tables
 from .c07 import socket_coroutine, wire_writes
@@ -95,7 +96,7 @@ def check_pub_reader(f, rep):
     """R16.3 (PUB reader task): forgets its peer when, and only when, the subscriber's stream ended or failed"""
     # PUB reader task
     for ty, outer in trait_impls(f, "MultiPeerBackend", "peer_connected").items():
-        if not ty.endswith("PubSocketBackend") or "XPub" in ty:
+        if ty.split("::")[-1] != names.of(f, "PubSocketBackend"):
             continue
         co = coroutine_of(f, outer)
         readers = [k for k in f.children(co) if k.j.get("coroutine_kind")]
